@@ -226,6 +226,7 @@ type c41Env struct {
 	encodings, deliveries, frameOps                          atomic.Int64
 	outExact, outInvalidSkipped, faultDelivered, faultLost   atomic.Int64
 	faultDupEmitted, multiFrame, sharedFrame, streamsChecked atomic.Int64
+	streamFaultDeliveries                                    atomic.Int64
 	closeEarlyExact                                          atomic.Int64
 	panics                                                   atomic.Int64
 	abort                                                    atomic.Bool
@@ -621,8 +622,14 @@ func TestC41(t *testing.T) {
 	r.Rule = fmt.Sprintf("frame sizes %v x packet sequences (plans %v = {length, alphabet 0:all sizes {20,21,39,40,41,P-1,P,P+1,2P,2f,3P+5,"+
 		"10P+3|9000} v4/v6 + 8 invalid kinds; 1: 8 kinds; 2: 4 kinds, fault bound}) x every composition of the sequence into write "+
 		"bursts (and, in order only, with the encoder closed before the last burst is drained) x delivery: in order, and every 1 (bound 2: every 2, for <=10 frames) of {loss, duplicate, late duplicate, adjacent "+
-		"swap} at every frame position; P = frame size - 16; a case = (frame size, sequence, bursts); non-trivial = at least one "+
+		"swap} at every frame position; P = frame size - 16; plus two streams on one session: stream id pairs differing in each single bit of the "+
+		"20-bit field (2, thorough 4, base ids) and 4 multi-bit pairs x every order-preserving interleaving of the two frame lists, in order "+
+		"and with one fault (thorough partly two) at every position; a case = (frame size, sequence, bursts) or (frame size, stream pair); non-trivial = at least one "+
 		"valid packet", frameSizes, plans)
+
+	// the small experiments first, so that a budget cap in the main enumeration never skips them
+	c41ManyFrames(e)
+	c41Streams(e)
 
 	var stop atomic.Bool
 	var capNote string
@@ -670,9 +677,6 @@ func TestC41(t *testing.T) {
 	}
 	if e.abort.Load() {
 		r.Capped("exploration aborted after more than 100 panics in the code under test (each leaks a pooled frame buffer)")
-	} else {
-		c41ManyFrames(e)
-		c41Streams(e)
 	}
 
 	r.Extra["encodings"] = e.encodings.Load()
@@ -687,6 +691,7 @@ func TestC41(t *testing.T) {
 	r.Extra["fault_deliveries_some_packet_lost"] = e.faultLost.Load()
 	r.Extra["fault_deliveries_with_packet_emitted_twice"] = e.faultDupEmitted.Load()
 	r.Extra["two_stream_interleavings"] = e.streamsChecked.Load()
+	r.Extra["two_stream_fault_deliveries"] = e.streamFaultDeliveries.Load()
 	for name, n := range map[string]int64{"inorder-exact-sequence": e.outExact.Load(), "invalid-packet-not-encapsulated": e.outInvalidSkipped.Load(),
 		"fault-all-delivered": e.faultDelivered.Load(), "fault-packets-lost-none-corrupted": e.faultLost.Load(),
 		"fault-duplicate-packet-emitted": e.faultDupEmitted.Load(), "packet-spans-frames": e.multiFrame.Load(),
@@ -702,7 +707,7 @@ func TestC41(t *testing.T) {
 		"at most 5 packets are outstanding, so the encoder's 64-entry ring never overflows (Write drops silently when it is full)",
 		"under faults a packet may be lost or emitted more than once; only byte identity with a sent packet is required",
 		"frames are only reordered/duplicated/dropped as a whole; their bytes are never altered (C41 has no corruption model)",
-		"both gateways use the same session id; epochs are the 20-bit stream ids of two encoders feeding one worker",
+		"both gateways use the same session id; epochs are the 20-bit stream ids of two encoders feeding one worker; ids that differ in any of the 20 bits are different streams (bits above 20 are reserved and cut off by the encoder, so they are not varied)",
 		"the main enumeration keeps packets <= 12 frames; the >100-frame regime is probed separately (many-frames experiment)",
 	}
 	r.Finish(6)
@@ -742,62 +747,185 @@ func c41ManyFrames(e *c41Env) {
 	}
 }
 
-// c41Streams: two encoders (two stream ids = epochs) feed one worker; every interleaving of their frames that keeps
-// each stream in order must reproduce each stream's packet sequence.
+// c41Streams: two encoders (two stream ids = epochs of the same session) feed one worker. The stream field is 20
+// bits wide (encoder.go header layout); two streams are different whenever their 20-bit ids differ, in whichever
+// bit. For every single-bit difference over the whole field width (on several base ids) and every interleaving of
+// the two frame lists that keeps each stream in order, each stream's packet sequence must be reproduced exactly;
+// with one fault (loss / duplicate / late duplicate / adjacent swap at every position of the merged order; thorough:
+// two faults on the shortest frame lists) every emitted packet must be byte-identical to a packet sent on either
+// stream.
 func c41Streams(e *c41Env) {
 	slot := e.wd.slot()
+	bases := mc.Pick([]uint32{0x12345, 0x00000}, []uint32{0x12345, 0x00000, 0xfffff, 0xa5a5a})
+	type pair struct{ a, b uint32 }
+	var pairs []pair
+	for _, base := range bases {
+		for bit := 0; bit < 20; bit++ {
+			pairs = append(pairs, pair{base, base ^ 1<<bit})
+		}
+	}
+	// a few multi-bit differences as well
+	pairs = append(pairs, pair{0x00001, 0x00002}, pair{0x0ffff, 0xf0000}, pair{0x12345, 0xe2345}, pair{0x00000, 0xfffff})
+	type shape struct {
+		name   string
+		sa, sb func(P int) []c41Kind
+	}
+	shapes := []shape{{"short",
+		func(P int) []c41Kind { return []c41Kind{{name: "a1", v: 4, size: P + 1}, {name: "a2", v: 6, size: 40}} },
+		func(P int) []c41Kind {
+			return []c41Kind{{name: "b1", v: 6, size: 2*P + 3}, {name: "b2", v: 4, size: 20}}
+		}}}
+	if mc.Thorough() {
+		shapes = append(shapes, shape{"long",
+			func(P int) []c41Kind {
+				return []c41Kind{{name: "a1", v: 4, size: P + 1}, {name: "a2", v: 6, size: 40}, {name: "a3", v: 4, size: 2*P + 5}}
+			},
+			func(P int) []c41Kind {
+				return []c41Kind{{name: "b1", v: 6, size: 2*P + 3}, {name: "b2", v: 4, size: 20}, {name: "b3", v: 6, size: P + 2}}
+			}})
+	}
 	for _, f := range []int{dataplane.VerifMinMTU, 97} {
 		P := f - dataplane.VerifHdrLen
-		seqA := []c41Kind{{name: "a1", v: 4, size: P + 1}, {name: "a2", v: 6, size: 40}}
-		seqB := []c41Kind{{name: "b1", v: 6, size: 2*P + 3}, {name: "b2", v: 4, size: 20}}
-		var pa, pb [][]byte
-		for i, k := range seqA {
-			pa = append(pa, c41Mk(k, i+1))
-		}
-		for i, k := range seqB {
-			pb = append(pb, c41Mk(k, i+11))
-		}
-		ra, v1 := e.encode(slot, f, 1, [][][]byte{pa}, false)
-		rb, v2 := e.encode(slot, f, 2, [][][]byte{pb}, true)
-		if v1 != nil || v2 != nil {
-			e.r.Violation("streams:encode-failed", map[string]any{"f": f, "a": fmt.Sprint(v1), "b": fmt.Sprint(v2)})
-			continue
-		}
-		frames := append(append([][]byte{}, ra.frames...), rb.frames...)
-		na, nb := len(ra.frames), len(rb.frames)
-		var rec func(order []int, ia, ib int)
-		rec = func(order []int, ia, ib int) {
-			if ia == na && ib == nb {
-				out := e.deliver(frames, order)
-				e.streamsChecked.Add(1)
-				var oa, ob [][]byte
-				for _, p := range out {
-					switch {
-					case bytes.Equal(p, pa[0]) || bytes.Equal(p, pa[1]):
-						oa = append(oa, p)
-					case bytes.Equal(p, pb[0]) || bytes.Equal(p, pb[1]):
-						ob = append(ob, p)
-					default:
-						e.r.Violation("streams:emitted-packet-that-was-not-sent", map[string]any{"f": f, "order": fmt.Sprint(order), "len": len(p)})
+		for _, sh := range shapes {
+			var pa, pb [][]byte
+			for i, k := range sh.sa(P) {
+				pa = append(pa, c41Mk(k, i+1))
+			}
+			for i, k := range sh.sb(P) {
+				pb = append(pb, c41Mk(k, i+11))
+			}
+			sent := map[string]bool{}
+			for _, p := range append(append([][]byte{}, pa...), pb...) {
+				sent[string(p)] = true
+			}
+			for _, pr := range pairs {
+				if e.abort.Load() || e.r.OutOfBudget() {
+					e.r.Capped("budget exhausted in the two-stream experiment")
+					return
+				}
+				ctx := map[string]any{"frame_size": f, "stream_a": fmt.Sprintf("%#05x", pr.a), "stream_b": fmt.Sprintf("%#05x", pr.b),
+					"differing_bits": fmt.Sprintf("%#05x", pr.a^pr.b), "sequences": sh.name}
+				detail := func(kv ...any) map[string]any {
+					d := map[string]any{}
+					for k, v := range ctx {
+						d[k] = v
+					}
+					for i := 0; i+1 < len(kv); i += 2 {
+						d[kv[i].(string)] = kv[i+1]
+					}
+					return d
+				}
+				ra, v1 := e.encode(slot, f, pr.a, [][][]byte{pa}, false)
+				rb, v2 := e.encode(slot, f, pr.b, [][][]byte{pb}, true)
+				if v1 != nil || v2 != nil {
+					e.r.Violation("streams:encode-failed", detail("a", fmt.Sprint(v1), "b", fmt.Sprint(v2)))
+					continue
+				}
+				frames := append(append([][]byte{}, ra.frames...), rb.frames...)
+				na, nb := len(ra.frames), len(rb.frames)
+				project := func(out [][]byte) (oa, ob [][]byte, alien []byte) {
+					for _, p := range out {
+						inA, inB := false, false
+						for _, q := range pa {
+							inA = inA || bytes.Equal(p, q)
+						}
+						for _, q := range pb {
+							inB = inB || bytes.Equal(p, q)
+						}
+						switch {
+						case inA:
+							oa = append(oa, p)
+						case inB:
+							ob = append(ob, p)
+						default:
+							return oa, ob, p
+						}
+					}
+					return
+				}
+				same := func(x, y [][]byte) bool {
+					if len(x) != len(y) {
+						return false
+					}
+					for i := range x {
+						if !bytes.Equal(x[i], y[i]) {
+							return false
+						}
+					}
+					return true
+				}
+				faulty := func(order []int, name string) {
+					var out [][]byte
+					if p := mc.Safely(func() { out = e.deliver(frames, order) }); p != nil {
+						e.r.Violation("streams:faults:panic", detail("delivery", name, "order", fmt.Sprint(order), "panic", fmt.Sprint(p)))
 						return
 					}
+					e.streamFaultDeliveries.Add(1)
+					for _, p := range out {
+						if !sent[string(p)] {
+							e.r.Violation("streams:faults:emitted-packet-not-identical-to-any-sent-packet", detail("frames_a", na, "frames_b", nb,
+								"delivery", name, "order_(b_frames_are_offset_by_frames_a)", fmt.Sprint(order), "emitted_len", len(p),
+								"emitted_head", fmt.Sprintf("%x", p[:min(len(p), 48)])))
+							return
+						}
+					}
 				}
-				okA := len(oa) == 2 && bytes.Equal(oa[0], pa[0]) && bytes.Equal(oa[1], pa[1])
-				okB := len(ob) == 2 && bytes.Equal(ob[0], pb[0]) && bytes.Equal(ob[1], pb[1])
-				if !okA || !okB {
-					e.r.Violation("streams:interleaved-streams-not-reproduced", map[string]any{"f": f, "frames_a": na, "frames_b": nb,
-						"order": fmt.Sprint(order), "packets_a_out": len(oa), "packets_b_out": len(ob)})
+				var rec func(order []int, ia, ib int)
+				rec = func(order []int, ia, ib int) {
+					if ia < na {
+						rec(append(append([]int{}, order...), ia), ia+1, ib)
+					}
+					if ib < nb {
+						rec(append(append([]int{}, order...), na+ib), ia, ib+1)
+					}
+					if ia != na || ib != nb {
+						return
+					}
+					var out [][]byte
+					if p := mc.Safely(func() { out = e.deliver(frames, order) }); p != nil {
+						e.r.Violation("streams:panic", detail("order", fmt.Sprint(order), "panic", fmt.Sprint(p)))
+						return
+					}
+					e.streamsChecked.Add(1)
+					oa, ob, alien := project(out)
+					if alien != nil {
+						e.r.Violation("streams:emitted-packet-that-was-not-sent", detail("order", fmt.Sprint(order), "len", len(alien)))
+						return
+					}
+					if !same(oa, pa) || !same(ob, pb) {
+						e.r.Violation("streams:interleaved-streams-not-reproduced", detail("frames_a", na, "frames_b", nb,
+							"order_(b_frames_are_offset_by_frames_a)", fmt.Sprint(order), "packets_a_out", len(oa), "packets_a_sent", len(pa),
+							"packets_b_out", len(ob), "packets_b_sent", len(pb)))
+						return
+					}
+					if sh.name != "short" {
+						return
+					}
+					// one fault anywhere in this merged order
+					for kind := 0; kind < 4; kind++ {
+						for i := range order {
+							o1 := c41ApplyFault(order, kind, i)
+							if o1 == nil {
+								continue
+							}
+							faulty(o1, fmt.Sprintf("fault%d@%d", kind, i))
+							if !mc.Thorough() || f != dataplane.VerifMinMTU || pr.a != 0x12345 {
+								continue
+							}
+							for k2 := 0; k2 < 4; k2++ {
+								for i2 := range o1 {
+									if o2 := c41ApplyFault(o1, k2, i2); o2 != nil {
+										faulty(o2, fmt.Sprintf("fault%d@%d+fault%d@%d", kind, i, k2, i2))
+									}
+								}
+							}
+						}
+					}
 				}
-				return
-			}
-			if ia < na {
-				rec(append(append([]int{}, order...), ia), ia+1, ib)
-			}
-			if ib < nb {
-				rec(append(append([]int{}, order...), na+ib), ia, ib+1)
+				rec(nil, 0, 0)
+				e.r.Case(fmt.Sprintf("two streams f=%d %s %#x/%#x", f, sh.name, pr.a, pr.b), true)
 			}
 		}
-		rec(nil, 0, 0)
-		e.r.Case(fmt.Sprintf("two streams f=%d", f), true)
 	}
+	e.r.Extra["two_stream_id_pairs"] = len(pairs)
 }
